@@ -160,7 +160,8 @@ theorem insert_none (loc : Seq → List Reg) (embed : Bool) (host guest : Seq) (
   rw [h]
   rfl
 
-/-- `insert` and `infix` differ in the feature table only. -/
+/-- with and without `-e` (`gts.Embed` instead of `gts.Insert`) the residues are the same: the flag
+only changes how host features spanning a site are re-located. -/
 theorem insert_infix_same_bytes (loc : Seq → List Reg) (host guest : Seq) :
     (Cli.insert loc true host guest).bytes = (Cli.insert loc false host guest).bytes := by
   unfold Cli.insert
